@@ -39,8 +39,8 @@ fn host_cfgs() -> Vec<HostCfg> {
     ]
 }
 
-const SNIS: [&str; 18] = [
-    "m.t", "n.t", "x.m.t", "y.x.m.t", "p.t", "s.t", "r.t", "q.t", "alt.t", "c.m.t", "c.x.m.t", "c.p.t", ".m.t", "m.t.", "M.T", "unknown.example", "t", "",
+const SNIS: [&str; 20] = [
+    "m.t", "n.t", "x.m.t", "y.x.m.t", "p.t", "s.t", "r.t", "q.t", "alt.t", "c.m.t", "c.x.m.t", "c.p.t", ".m.t", "m.t.", "M.T", "unknown.example", "t", "", "c.alt.t", "c.q.t",
 ];
 
 const ALPN_TOKENS: [&[u8]; 5] = [b"h3", b"h2", b"http/1.1", b"zz", b"\xff\xfe"];
